@@ -4,7 +4,9 @@ package main
 
 import (
 	"context"
+	"fmt"
 	"math/big"
+	"strings"
 
 	"github.com/hyperledger/firefly-signer/pkg/secp256k1"
 	"golang.org/x/crypto/sha3"
@@ -187,6 +189,11 @@ func init() {
 				c.Add(map[string]any{"op": "secp.compact", "V": sig.V.String(), "R": sig.R.String(), "S": sig.S.String()}, "compact")
 				c.Add(map[string]any{"op": "secp.compact", "V": v155.String(), "R": sig.R.String(), "S": sig.S.String()}, "compact.bigV")
 				c.Add(map[string]any{"op": "secp.decodecompact", "hex": hx(r.Bytes(Pick(r, []int{0, 1, 64, 65, 65, 65, 66})))}, "decodecompact")
+				if i%8 == 0 {
+					b65 := r.Bytes(65)
+					b65[64] = Pick(r, []byte{0, 1, 27, 28, 2, 26, 29, 35, 36, 255})
+					c.Add(map[string]any{"op": "secp.decodecompact", "hex": hx(b65)}, "decodecompact.v")
+				}
 			}
 			// addresses: random keys plus keys whose public X or Y has a leading zero byte (searched)
 			nAddr := 120
@@ -260,6 +267,10 @@ func init() {
 				if err != nil {
 					return "err"
 				}
+				if hx(s.CompactRSV()) != strings.ToLower(str(req, "hex")) {
+					// the 65-byte compact form must round-trip byte for byte
+					return map[string]any{"roundtrip": false, "reenc": hx(s.CompactRSV()), "V": s.V.String(), "R": s.R.String(), "S": s.S.String()}
+				}
 				return ok(map[string]any{"V": s.V.String(), "R": s.R.String(), "S": s.S.String()})
 			case "keccak":
 				return hx(keccak(unhx(str(req, "hex"))))
@@ -278,6 +289,9 @@ func init() {
 				}
 				if impl == "panic" {
 					fs = append(fs, Finding{Kind: "violation", Region: str(req, "op") + ".panic", Detail: "panicked"})
+				}
+				if m, isMap := impl.(map[string]any); isMap && m["roundtrip"] == false {
+					fs = append(fs, Finding{Kind: "violation", Region: "secp.compact.roundtrip", Detail: "decoding the 65-byte compact form and encoding it again gives " + fmt.Sprint(m["reenc"])})
 				}
 			case "secp.addr":
 				m := impl.(map[string]any)
